@@ -27,7 +27,7 @@ import os
 
 import networkx as nx
 
-from common import Atom, Case, Run, call_impl, prepare, ImplError, sx, parse_sx, Driver
+from common import Atom, Case, Run, call_impl, prepare, ImplError, sx, parse_sx, Driver, input_variant, graph_shape
 
 PROOFS = ["FGVerif.Proofs.C17"]
 
@@ -131,21 +131,37 @@ def canon_edges(nodes, edges):
     return tuple(sorted((min(idx[u], idx[v]), max(idx[u], idx[v])) for u, v in edges))
 
 
+# the enumeration is PURE: the graph may be frozen, a sub-graph view of a larger graph, carry irrelevant node / edge
+# attributes, or have numpy.int64 node ids (string / tuple / mixed ids are id styles of their own, see ID_STYLES)
+VARIANT_KINDS = ("frozen", "view", "numpy", "extra_attrs")
+
+
 def make_case(rng, nodes, edges, anchor, tags, with_dag=False, in_domain=True, oracle=False, g=None, code=None,
-              extra_meta=None):
+              extra_meta=None, form_kinds=None):
     """`g` given: the call is made on THAT graph object as it is now (scenarios that re-use / edit one object
-    between calls); `nodes`/`edges` then describe its current state"""
+    between calls); `nodes`/`edges` then describe its current state.
+    `form_kinds`: the implementation receives the graph in another FORM (common.input_variant); the request (original
+    rows, relabelled rows) is extracted from the plain graph"""
     if g is None:
         g = build_graph(nodes, edges)
     if code is None:
         code = make_codes(list(g.nodes), rng)
     orig, adj = extract(g, anchor, code)
-    out = call_impl(impl_run, g, anchor, code, with_dag)
+    g_impl = g
+    if form_kinds:
+        g_impl, form = input_variant(g, rng, form_kinds)
+        if graph_shape(g_impl) != graph_shape(g):
+            raise AssertionError("input_variant changed node / adjacency order (harness defect)")
+        tags = tuple(tags) + ("input_form", form)
+        extra_meta = dict(extra_meta or {}, variant=form)
+    out = call_impl(impl_run, g_impl, anchor, code, with_dag)
     req = [Atom("C17"), Atom("cis"), orig, code[anchor], adj]
     n = g.number_of_nodes()
     key = None
     if n >= 3 and g.degree(anchor) >= 1:
         key = (tuple(nodes.index(x) for x in g.nodes), canon_edges(nodes, edges), nodes.index(anchor))
+        if form_kinds:
+            key += (extra_meta["variant"],)
     meta = {"nodes": [repr(x) for x in nodes], "edges": [[repr(u), repr(v)] for u, v in edges],
             "anchor": repr(anchor), "with_dag": with_dag,
             "code": [[repr(k), v] for k, v in code.items()]}
@@ -222,6 +238,9 @@ def atlas_cases(rng, max_n, sample7=0):
     return cases
 
 
+FORM_SHARE = 0.12      # share of the cases whose graph is handed over in another form (tags variant=*)
+
+
 def atlas_graph_cases(rng, G, tag):
     n = G.number_of_nodes()
     nodes0 = list(G.nodes)
@@ -229,12 +248,14 @@ def atlas_graph_cases(rng, G, tag):
     out = []
     # (a) the atlas graph as it is: integer ids 0..n-1, every anchor (anchor mostly not first / not smallest)
     for a in nodes0:
-        out.append(make_case(rng, nodes0, edges0, a, (tag, "ids=int_plain"), oracle=True))
+        out.append(make_case(rng, nodes0, edges0, a, (tag, "ids=int_plain"), oracle=True,
+                             form_kinds=VARIANT_KINDS if rng.random() < FORM_SHARE else None))
     # (b) string ids, (c) tuple ids: one random relabelling each, shuffled node and adjacency order, every anchor
     for style in ("str", "tuple"):
         nodes, es, new = relabelled(rng, n, edges0, style)
         for a in nodes:
-            out.append(make_case(rng, nodes, es, a, (tag, "ids=" + style), with_dag=rng.random() < 0.05))
+            out.append(make_case(rng, nodes, es, a, (tag, "ids=" + style), with_dag=rng.random() < 0.05,
+                                 form_kinds=VARIANT_KINDS if rng.random() < FORM_SHARE else None))
     return out
 
 
@@ -298,7 +319,8 @@ def random_cases(rng, count, nmin=7, nmax=14):
             anchors.append(nodes[-1])
         for a in anchors:
             cases.append(make_case(rng, nodes, es, a, ("random", kind, "ids=" + style),
-                                   with_dag=rng.random() < 0.03, oracle=(n <= 11)))
+                                   with_dag=rng.random() < 0.03, oracle=(n <= 11),
+                                   form_kinds=VARIANT_KINDS if rng.random() < FORM_SHARE else None))
     return cases
 
 
@@ -359,6 +381,9 @@ def corpus_cases(rng):
             edges = [(ast.literal_eval(u), ast.literal_eval(v)) for u, v in c["edges"]]
             cs.append(make_case(rng, nodes, edges, ast.literal_eval(c["anchor"]),
                                 ("corpus", "ids=" + c.get("ids", "other")), oracle=True))
+            for kind in VARIANT_KINDS:        # every corpus graph also in every other input form
+                cs.append(make_case(rng, nodes, edges, ast.literal_eval(c["anchor"]),
+                                    ("corpus", "ids=" + c.get("ids", "other")), oracle=True, form_kinds=(kind,)))
     return cs
 
 
@@ -484,7 +509,9 @@ def run(tier, seed):
         rule="corpus; graph atlas (all graphs with <=6 nodes quick / <=7 thorough) x every anchor x {atlas int ids, random "
              "string relabelling, random tuple relabelling} with shuffled node and adjacency order; random sparse graphs "
              "7..14 nodes (tree+chords, forests, G(n,p)) x 3 anchors x id style; same-object scenarios (enumerate, rewire the same graph "
-             "object in place with unchanged node/edge counts, enumerate again: 1-3 rewirings per object); non-trivial = >=3 nodes and anchor of "
+             "object in place with unchanged node/edge counts, enumerate again: 1-3 rewirings per object); 12% of the atlas / random cases and every "
+             "corpus graph handed over in another FORM (nx.freeze, sub-graph view of a larger graph, numpy.int64 ids, extra node/edge attributes; "
+             "tags variant=*); non-trivial = >=3 nodes and anchor of "
              "degree >=1, distinct by (node order, edge set, anchor)",
         checker_cmd="cd lean && lake build FGVerif.Proofs.C17 && lake env lean FGVerif/Audit/C17.lean",
         explanation="theorems in lean/FGVerif/Proofs/C17*.lean about Model/C17.lean (soundness, assert never fails, fuel, "
@@ -527,7 +554,12 @@ def replay(path):
             g.add_edge(lit(aa), lit(ab))
         print("re-ran the same-object scenario: %d in-place rewiring(s) before the judged call" % meta.get("call", 0))
     orig, adj = extract(g, anchor, code)
-    out = call_impl(impl_run, g, anchor, code, meta.get("with_dag", False))
+    g_impl = g
+    if meta.get("variant") and meta["variant"] != "variant=plain":
+        import random
+        g_impl = input_variant(g, random.Random(rep.get("seed", 0)), (meta["variant"].split("=")[1],))[0]
+        print("re-applied the recorded input form: %s" % meta["variant"])
+    out = call_impl(impl_run, g_impl, anchor, code, meta.get("with_dag", False))
     c = Case([Atom("C17"), Atom("cis"), orig, code[anchor], adj], out)
     d = Driver()
     reply = d.ask(c.line())
